@@ -172,6 +172,75 @@ def _on_alarm(signum, frame):
     raise _RunTimeout()
 
 
+
+class ColdServer:
+    """The restart fault.  A process forked when this worker had executed nothing since import; for a run marked cold
+    it forks once more and the whole run executes there - in a process whose caches, memo tables and lazily built
+    vocabularies are all in their import-time state, as after a restart of the client program.  The same invariants
+    are checked by the same code; only the history of the process differs (none, instead of the runs before)."""
+
+    def __init__(self, mod):
+        self.conn, child = multiprocessing.Pipe()
+        self.pid = os.fork()
+        if self.pid == 0:
+            self.conn.close()
+            try:
+                self._serve(mod, child)
+            finally:
+                os._exit(0)
+        child.close()
+
+    @staticmethod
+    def _serve(mod, conn):
+        signal.signal(signal.SIGALRM, signal.SIG_DFL)
+        signal.setitimer(signal.ITIMER_REAL, 0)
+        while True:
+            try:
+                req = conn.recv()
+            except (EOFError, OSError):
+                return
+            if req is None:
+                return
+            plan, timeout = req
+            pid = os.fork()
+            if pid == 0:
+                try:
+                    signal.alarm(int(timeout))
+                    if not mod.clean_start():
+                        conn.send(('dirty', None, None))
+                    else:
+                        out = mod.execute(plan)
+                        dg = out.digest()
+                        out.log = []
+                        conn.send(('ok', out, dg))
+                except BaseException:  # noqa
+                    try:
+                        conn.send(('harness', traceback.format_exc(), None))
+                    except Exception:
+                        pass
+                finally:
+                    try:
+                        if hasattr(mod, 'shutdown'):
+                            mod.shutdown()
+                    finally:
+                        os._exit(0)
+            os.waitpid(pid, 0)
+
+    def run(self, plan, timeout):
+        self.conn.send((plan, timeout))
+        if not self.conn.poll(timeout + 15):
+            raise _RunTimeout()
+        return self.conn.recv()
+
+    def close(self):
+        try:
+            self.conn.send(None)      # explicit stop: other forks of this worker may hold our end of the pipe open
+            self.conn.close()
+            os.waitpid(self.pid, 0)
+        except Exception:
+            pass
+
+
 def run_chunk(mod, seeds, tier, opts):
     """Run a list of seeds sequentially in this process and summarise."""
     res = {'runs': 0, 'events': 0, 'oracle_checks': 0, 'faults': collections.Counter(),
@@ -183,6 +252,21 @@ def run_chunk(mod, seeds, tier, opts):
     if hasattr(mod, 'set_full_global'):
         mod.set_full_global(opts.get('full_global', False))
     executed = []     # plans already executed in this process, in order (a violation may depend on them)
+    cold_every = opts.get('cold_every', getattr(mod, 'COLD_EVERY', 0))
+    cold = None
+    if hasattr(mod, 'setup') and not opts.get('no_cold'):
+        mod.setup()
+        cold = ColdServer(mod)        # forked now: nothing has been executed in this worker yet
+    try:
+        return _run_chunk_loop(mod, seeds, tier, opts, res, executed, cold, cold_every, want_digests)
+    finally:
+        if cold is not None:
+            cold.close()
+        if hasattr(mod, 'shutdown'):
+            mod.shutdown()
+
+
+def _run_chunk_loop(mod, seeds, tier, opts, res, executed, cold, cold_every, want_digests):
     for pos, (base, idx) in enumerate(seeds):
         seed = base + idx
         if not mod.clean_start():
@@ -191,11 +275,24 @@ def run_chunk(mod, seeds, tier, opts):
             break
         try:
             plan = mod.gen_plan(Sched(seed), idx, tier)
-            signal.setitimer(signal.ITIMER_REAL, opts.get('run_timeout', 120))
-            try:
-                out = mod.execute(plan)
-            finally:
-                signal.setitimer(signal.ITIMER_REAL, 0)
+            if cold_every and idx % cold_every == cold_every - 1:
+                plan['header']['cold'] = True
+            is_cold = bool(plan['header'].get('cold')) and cold is not None
+            dg = None
+            if is_cold:
+                tag, out, dg = cold.run(plan, opts.get('run_timeout', 120))
+                if tag == 'dirty':
+                    raise HarnessError("process-wide state differs from import-time content in a cold process")
+                if tag != 'ok':
+                    res['harness_error'] = f"seed {seed} (cold): {out}"
+                    break
+                out.faults['restart'] += 1
+            else:
+                signal.setitimer(signal.ITIMER_REAL, opts.get('run_timeout', 120))
+                try:
+                    out = mod.execute(plan)
+                finally:
+                    signal.setitimer(signal.ITIMER_REAL, 0)
         except _RunTimeout:
             res['harness_error'] = f"run index {idx} (seed {seed}) exceeded {opts.get('run_timeout', 120)}s wall"
             break
@@ -217,14 +314,15 @@ def run_chunk(mod, seeds, tier, opts):
                 res['nontrivial'].add(out.shape)
         res['states'].update(out.states)
         if want_digests:
-            res['digests'][seed] = out.digest()
+            res['digests'][seed] = dg if dg is not None else out.digest()
         if len(res['samples']) < 1 and out.nontrivial:
             res['samples'].append({'seed': seed, 'events': plan['events'][:12], 'pool': plan['pool']})
         if out.violation is not None:
             res['violation'] = {'seed': seed, 'plan': plan, 'violation': out.violation,
-                                'prefix': executed[-opts.get('prefix_keep', 400):]}
+                                'prefix': [] if is_cold else executed[-opts.get('prefix_keep', 400):]}
             break
-        executed.append(plan)
+        if not is_cold:
+            executed.append(plan)
     if res['violation'] is None and not res['harness_error'] and hasattr(mod, 'chunk_end_clean') \
             and not opts.get('full_global') and not mod.chunk_end_clean():
         # some run of this chunk changed process-wide content without the cheap fingerprint noticing:
